@@ -15,7 +15,7 @@ struct Spec {
 	std::string ver;   // OB FO3 SK SSE FO4
 	int tree = 0;	   // index into the list of node trees (0..9)
 	int shapes = 0;	   // index into the list of shape placements (0..5)
-	int attach = 0;	   // attachment menu (0..7)
+	int attach = 0;	   // attachment menu (0..8)
 	bool dupnames = false;
 };
 
@@ -37,8 +37,8 @@ inline const std::vector<std::vector<int>>& shape_sets() {
 	static const std::vector<std::vector<int>> s = {{}, {0}, {1}, {0, 0}, {0, 1}, {1, 1}, {0, 0, 0}};
 	return s;
 }
-static const char* ATTACH[] = {"none", "extra-data", "collision", "constraint", "controller", "loose", "ordered-node", "alpha+shape-extra"};
-constexpr int NATTACH = 8;
+static const char* ATTACH[] = {"none", "extra-data", "collision", "constraint", "controller", "loose", "ordered-node", "alpha+shape-extra", "shared-collision"};
+constexpr int NATTACH = 9;
 
 inline std::string spec_str(const Spec& s) {
 	return s.ver + "/tree" + std::to_string(s.tree) + "/shapes" + std::to_string(s.shapes) + "/" + ATTACH[s.attach] + (s.dupnames ? "/dup" : "");
@@ -191,6 +191,22 @@ inline bool build(const Spec& sp, NifFile& nif) {
 				ctl->interpolatorRef.index = interpId;
 				hdr.AddBlock(std::move(ctl));
 			}
+			break;
+		}
+		case 8: {
+			// one collision object that two scene objects refer to (the sorter reaches it twice)
+			auto box = std::make_unique<bhkBoxShape>();
+			uint32_t boxId = hdr.AddBlock(std::move(box));
+			auto body = std::make_unique<bhkRigidBody>();
+			body->shapeRef.index = boxId;
+			uint32_t bodyId = hdr.AddBlock(std::move(body));
+			auto col = std::make_unique<bhkCollisionObject>();
+			col->bodyRef.index = bodyId;
+			col->targetRef.index = hdr.GetBlockID(root);
+			uint32_t colId = hdr.AddBlock(std::move(col));
+			root->collisionRef.index = colId;
+			NiAVObject* second = nodes.back() != root ? (NiAVObject*) nodes.back() : (shapes.empty() ? nullptr : (NiAVObject*) shapes[0]);
+			if (second) second->collisionRef.index = colId;
 			break;
 		}
 		case 7: {
